@@ -1,4 +1,4 @@
-\* heartbeat / state updates (the middle class) mixed with one kind of topology change (address), add, remove, equal; 3 updates deep
+\* heartbeat / state updates (the middle class) mixed with address changes, add, remove, equal; 3 instances, 3 updates deep
 CONSTANTS
   Inst = {1, 2, 3}
   Ident = {1}
@@ -18,4 +18,4 @@ CONSTANTS
   InitDescs <- NarrowInitDescs
 INIT Init
 NEXT Next
-INVARIANTS TypeOK UnobservableFast PendingSound
+INVARIANTS TypeOK Unobservable UnobservableFast PendingSound
